@@ -227,6 +227,59 @@ def run_line(seed, out, bump):
 
 
 # ------------------------------------------------------------------------------------------
+# (b') systematic single pre-emption: park worker A at every source line it reaches
+# ------------------------------------------------------------------------------------------
+def sweep_jobs(seed):
+    rng = kernel.stream(seed, 'scene')
+    ca = rng.choice(['demo-like', 'rng-sensitive', 'merge+split', 'demo-like'])
+    cb = rng.choice(['demo-like', 'rng-sensitive', 'split'])
+    return [gen_job(rng, ca), gen_job(rng, cb)]
+
+
+def run_sweep(run, out, bump):
+    """Worker `a` is parked at the chosen occurrence of each source line it reaches (one line per
+    simulated run); the other worker then runs to completion; `a` resumes. Complete for 'one
+    pre-emption at that occurrence of every static line reached', for this job pair."""
+    jobs = sweep_jobs(run['seed'])
+    a = run['dir']
+    b = 1 - a
+    refs = references(jobs, run['seed'])
+    if any(r[0][0] == 'exc' and r[0][1] != 'AmpycloudError' for r in refs):
+        bump('scenes_discarded')
+        return
+    with seams.scripted_clock(kernel.stream(run['seed'], 'clock-ref')):
+        lines = threads.reference_run(make_job(jobs[a], a), lines=True)[4]
+    keys = sorted(lines)
+    out['sets']['sweep_static_lines'] = {f'{run["seed"]}:{a}:{len(keys)}'}
+    rng = kernel.stream(run['seed'], f'occ-{run["lo"]}')
+    for key in keys[run['lo']:run['hi']]:
+        steps = lines[key]
+        at = steps[0] if run['occ'] == 'first' else rng.choice(steps)
+        schedule = [[a, at], [b, 1 << 40], [a, 1 << 40]]
+        sim, bad = simulate(jobs, threads.Replay(schedule), refs, clock_seed=run['seed'])
+        out['n_eval'] += 1
+        out['steps'] += sum(sim.steps)
+        bump('fault.single_preemption_at_static_line')
+        bump('fault.thread_preemption_at_line', sim.switches)
+        for k, v in sim.probes.items():
+            bump(f'probe.{k}', v)
+        out['sets']['coresidence_pairs'].update(f'{x}|{y}' for x, y in sim.cores)
+        skey = f'sweep:{run["seed"]}:{a}:{key[0]}:{key[1]}:{at}'
+        out['sets']['interleavings'].add(skey)
+        out['sigs'].append(skey)
+        out['log'].append([skey, sim.steps, kernel.sha(repr(sim.results))])
+        if len(out['samples']) < 1:
+            out['samples'].append({'level': 'line-sweep', 'parked_worker': a,
+                                   'parked_at': f'{key[0]}:{key[1]} (line event {at})',
+                                   'workers': [{'class': s['cls'], 'rows': len(s['rows']),
+                                                'prms': s['prms']} for s in jobs]})
+        if bad:
+            out['violations'].append(_line_violation(jobs, sim.compact_schedule(), bad,
+                                                     f'sweep@{key[0]}:{key[1]}', run['seed']))
+            return
+
+
+# ------------------------------------------------------------------------------------------
 # (a) stage granularity
 # ------------------------------------------------------------------------------------------
 def _stage_step(state, scene, k, tag):
@@ -357,7 +410,13 @@ def plan(tier, master):
     for k in range(0, n3, 25):
         runs.append({'kind': 'stage', 'n_chunks': 3, 'lo': k, 'hi': k + 25,
                      'seed': kernel.run_seed(PROP, master, f'triple-{k // 500}')})
-    n_jobsets = 200 if tier == 'quick' else 5000     # x SCHEDULES_PER_JOBSET simulated runs
+    sweeps = [(0, 0, 'first')] if tier == 'quick' else \
+        [(p, d, o) for p in range(6) for d in (0, 1) for o in ('first', 'seeded')]
+    for (p, d, o) in sweeps:
+        for lo in range(0, 900, 15):
+            runs.append({'kind': 'sweep', 'seed': kernel.run_seed(PROP, master, f'sweep-{p}'),
+                         'dir': d, 'occ': o, 'lo': lo, 'hi': lo + 15})
+    n_jobsets = 120 if tier == 'quick' else 3000     # x SCHEDULES_PER_JOBSET simulated runs
     per = 2
     for i in range(0, n_jobsets, per):
         runs.append({'kind': 'line', 'seeds': [kernel.run_seed(PROP, master, i + j)
@@ -380,6 +439,8 @@ def execute(run):
         cnt[key] = cnt.get(key, 0) + n
     if run['kind'] == 'stage':
         run_stage(run, out, bump)
+    elif run['kind'] == 'sweep':
+        run_sweep(run, out, bump)
     else:
         for seed in run['seeds']:
             run_line(seed, out, bump)
@@ -410,7 +471,8 @@ def describe(tier, agg):
                 'parameters: (a) a merged order of their five stage calls issued from one '
                 'thread (2 chunks: all 252 merges per scene pair; 3 chunks: seeded sample), or '
                 '(b) a thread schedule at source-line granularity chosen by a seeded strategy '
-                '(uniform p, few-switch k, pct d, directed, function-aligned). Non-trivial = '
+                '(uniform p, few-switch k, pct d, directed, function-aligned), or (b\') a '
+                'systematic sweep: one pre-emption at every source line reached. Non-trivial = '
                 'stage orders that really interleave (not one chunk after the other) / line '
                 'schedules with >= 1 switch while >= 2 workers were inside ampycloud code; '
                 'distinct = distinct merged order per scene set / distinct run-length schedule',
@@ -425,7 +487,12 @@ def describe(tier, agg):
         ],
         'extra': {
             'exhaustive_subspace': 'all 252 merges of two 5-stage sequences, for every scene '
-                                   'pair of the tier (quick 2, thorough 8)',
+                                   'pair of the tier (quick 2, thorough 8); and one pre-emption '
+                                   'at the first (thorough: also a seeded later) occurrence of '
+                                   'every source line reached by the parked worker, the other '
+                                   'worker running to completion meanwhile (quick: 1 job pair, '
+                                   'one direction; thorough: 6 pairs, both directions)',
+            'sweep_static_lines': sorted(agg['sets'].pop('sweep_static_lines', set())),
             'distinct_interleavings': len(agg['sets'].get('interleavings', ())),
             'distinct_coresidence_pairs': len(agg['sets'].get('coresidence_pairs', ())),
             'scripted_clock_span_s': max(spans) if spans else 0,
